@@ -38,8 +38,11 @@ func verifC17Dial() {
 		publicName = "pub.example"
 	}
 	var callerECH []byte
-	if vBool() {
+	switch vInt(0, 2) {
+	case 1:
 		callerECH = []byte{0xCA, 0x11}
+	case 2:
+		callerECH = []byte{} // an empty list is no list: it must not switch ECH off
 	}
 	callerSN := ""
 	if vBool() {
@@ -93,7 +96,7 @@ func verifC17Dial() {
 		prevRetry := lastOutcome == 2 && len(calls) >= 2 && calls[len(calls)-2].addr == addr
 		if prevRetry {
 			vAssert(vBytesEq(ech, retryList), "the retry uses exactly the server's retry configs")
-		} else if callerECH != nil {
+		} else if len(callerECH) > 0 {
 			vAssert(vBytesEq(ech, callerECHSnap), "caller-supplied ECH config list is never replaced")
 		} else if rec, ok := echOf[addr]; ok && len(rec) > 0 {
 			vAssert(vBytesEq(ech, rec), "ECH config list is the one of the HTTPS record that produced the address")
